@@ -356,6 +356,13 @@ class Harness:
                     S.count_fault("stall")
                     self.ev("stall", pid, d=step[1])
                     S.sleep(step[1])
+                elif op == "private-loop":
+                    # a thread payload that runs an event loop of its own (e.g. around a client library)
+                    # and talks to the runtime from inside it
+                    self.ev("private-loop", pid)
+                    S.probe("submission-from-private-asyncio-loop")
+                    asyncio.run(self._private_loop(pid, step[1]))
+                    self.ev("step", pid)
                 else:
                     raise ValueError("unknown step %r" % (step,))
         except Done as d:
@@ -365,6 +372,13 @@ class Harness:
                 self.ev("cleanup-step", pid)
             self.ev("finished", pid)
         return None
+
+    async def _private_loop(self, pid, substeps):
+        for st in substeps:
+            if st[0] == "sleep":
+                await asyncio.sleep(st[1])
+            elif not self.sync_step(pid, st):
+                raise ValueError("unknown private-loop step %r" % (st,))
 
     async def run_async(self, pid, args, kwargs, sleep, cancel_type, mode="background"):
         spec = self.specs[pid]
